@@ -14,7 +14,7 @@ for w in $(seq 0 $((W-1))); do
     i=0
     for name in "${names[@]}"; do
       if [ $((i % W)) -eq $w ]; then
-        d=seeded/$name
+        d=/verif/seeded/$name
         checks=$(python3 -c "import json;print(' '.join(json.load(open('$d/meta.json'))['caught_by']))")
         if [ -z "$checks" ]; then echo "$name: (harmless at HEAD, nothing to run)" >> /tmp/rsp_$w.out; i=$((i+1)); continue; fi
         if ! git -C $wt apply --check $d/patch.diff 2>/dev/null; then echo "$name: patch no longer applies" >> /tmp/rsp_$w.out; i=$((i+1)); continue; fi
